@@ -19,6 +19,21 @@
 #include "vh.h"
 #include "core/aio.c"
 extern int env_locks_held, env_sched_depth;
+#ifndef FV
+#define FV 100
+#endif
+#ifndef UV
+#define UV 200
+#endif
+#ifndef PV
+#define PV 50
+#endif
+#ifndef SV
+#define SV 60
+#endif
+#ifndef LV
+#define LV 300
+#endif
 
 /* ---- clock / random / threads ---- */
 static nni_time now_ = 1000;
@@ -126,6 +141,7 @@ static int      submissions, provider_reached, resubmit_in_cb, stop_returned, su
 static nni_time deadline_at_submit;
 static int      ev_count, ev_timedout_early;
 
+static void sh_check_result(nng_err rv);
 static void
 prov_cancel(nni_aio *aio, void *arg, nng_err rv)
 {
@@ -136,10 +152,45 @@ prov_cancel(nni_aio *aio, void *arg, nng_err rv)
 		nni_mtx_unlock(&prov_mtx);
 		if (rv == NNG_ETIMEDOUT && !(now_ > aio->a_expire || aio->a_expire == NNI_TIME_NEVER))
 			ev_timedout_early = 1;
+		sh_check_result(rv);
 		nni_aio_finish_error(aio, rv);
 		return;
 	}
 	nni_mtx_unlock(&prov_mtx);
+}
+/* ---- shadow of the configured deadline (AIO_TIME mode), independent of the fields of the aio ----
+ * what the application configured last: a relative timeout (nng_aio_set_timeout) or an absolute
+ * expiry (nng_aio_set_expire); the deadline of an operation is fixed when it is submitted */
+#define SH_NEVER ((nni_time) -1)
+static int          sh_abs;          /* last call was set_expire */
+static nng_duration sh_rel = NNG_DURATION_INFINITE;
+static nni_time     sh_expire;
+static nni_time     sh_deadline = SH_NEVER; /* of the operation in flight */
+static int          sh_sleep;               /* operation in flight is a sleep */
+static nni_time     sh_wake = SH_NEVER;     /* when a sleep is due to report success */
+static int          early_timeout, early_wake, stale_code;
+static void
+sh_submit(void)
+{
+	sh_sleep = 0;
+	sh_wake  = SH_NEVER;
+	if (sh_abs)
+		sh_deadline = sh_expire;
+	else if (sh_rel == NNG_DURATION_ZERO)
+		sh_deadline = now_;
+	else if (sh_rel == NNG_DURATION_INFINITE || sh_rel == NNG_DURATION_DEFAULT)
+		sh_deadline = SH_NEVER;
+	else
+		sh_deadline = now_ + (nni_time) sh_rel;
+}
+static void
+sh_check_result(nng_err rv)
+{
+	/* called at the moment the operation is completed */
+	if (rv == NNG_ETIMEDOUT && (sh_deadline == SH_NEVER || now_ < sh_deadline))
+		early_timeout = 1;
+	if (rv == 0 && sh_sleep && (sh_wake == SH_NEVER || now_ < sh_wake))
+		early_wake = 1;
 }
 static void
 op_submit(void)
@@ -147,10 +198,12 @@ op_submit(void)
 	submissions++;
 	if (stop_returned)
 		submits_after_stop++;
+	sh_submit();
 	nni_aio_reset(&A);
 	nni_mtx_lock(&prov_mtx);
 	if (!nni_aio_start(&A, prov_cancel, NULL)) {
 		nni_mtx_unlock(&prov_mtx);
+		sh_check_result(A.a_result);
 		return;
 	}
 	provider_reached++;
@@ -169,12 +222,19 @@ op_complete(void)
 	}
 	nni_mtx_unlock(&prov_mtx);
 }
+static int aborted_in_flight; /* an abort was issued while the current operation was in flight */
 static void
 the_callback(void *arg)
 {
 	(void) arg;
 	cb_runs++;
 	cb_result_seen = nni_aio_result(&A);
+	if (sh_sleep) {
+		sh_check_result(cb_result_seen);
+		sh_sleep = 0;
+	}
+	if (cb_result_seen == NNG_ECANCELED && !aborted_in_flight)
+		stale_code = 1; /* a cancel code reported by an operation that was never cancelled */
 	if (resubmit_in_cb) {
 		resubmit_in_cb = 0;
 		op_submit();
@@ -224,12 +284,16 @@ run_op(char c)
 {
 	switch (c) {
 	case 's':
+		aborted_in_flight = 0;
 		op_submit();
 		break;
 	case 'c':
 		op_complete();
 		break;
 	case 'a':
+		/* (an abort of an idle aio concerns no operation: the next one starts afresh) */
+		if (A.a_cancel_fn != NULL || cb_pending > 0)
+			aborted_in_flight = 1;
 		nni_aio_abort(&A, NNG_ECANCELED);
 		break;
 	case 'e':
@@ -246,6 +310,81 @@ run_op(char c)
 	case 'r':
 		resubmit_in_cb = 1;
 		break;
+#ifdef AIO_TIME
+	case 'Z':
+		sh_abs = 0;
+		sh_rel = NNG_DURATION_ZERO;
+		nni_aio_set_timeout(&A, NNG_DURATION_ZERO);
+		break;
+	case 'I':
+		sh_abs = 0;
+		sh_rel = NNG_DURATION_INFINITE;
+		nni_aio_set_timeout(&A, NNG_DURATION_INFINITE);
+		break;
+	case 'D':
+		sh_abs = 0;
+		sh_rel = NNG_DURATION_DEFAULT;
+		nni_aio_set_timeout(&A, NNG_DURATION_DEFAULT);
+		break;
+	case 'F': { /* finite relative timeout (value concrete per query, R1: it decides which branch the expiry pass takes) */
+		nng_duration t = FV;
+		sh_abs = 0;
+		sh_rel = t;
+		nni_aio_set_timeout(&A, t);
+		break;
+	}
+	case 'P': { /* absolute expiry that has already passed (or is exactly now: PV = 0) */
+		sh_abs    = 1;
+		sh_expire = now_ - PV;
+		nni_aio_set_expire(&A, sh_expire);
+		break;
+	}
+	case 'U': { /* absolute expiry in the future */
+		sh_abs    = 1;
+		sh_expire = now_ + UV;
+		nni_aio_set_expire(&A, sh_expire);
+		break;
+	}
+	case 'S':   /* nng_sleep_aio, not longer than the aio's own timeout (if that is finite) */
+	case 'L': { /* nng_sleep_aio longer than the aio's finite timeout: wakes early with ETIMEDOUT */
+		nng_duration ms     = (c == 'L') ? LV : SV;
+		int          finite = sh_rel != NNG_DURATION_INFINITE && sh_rel != NNG_DURATION_DEFAULT;
+		/* (nng_sleep_aio looks at the relative timeout only; words do not combine it with set_expire) */
+		if (c == 'L') {
+			CHECK(finite && ms > sh_rel, "harness: L needs a shorter finite timeout");
+		} else {
+			CHECK(!finite || ms <= sh_rel, "harness: S needs no shorter timeout");
+		}
+		submissions++;
+		aborted_in_flight = 0;
+		sh_sleep          = 1;
+		if (c == 'L') {
+			sh_deadline = now_ + (nni_time) sh_rel;
+			sh_wake     = SH_NEVER;
+		} else {
+			sh_deadline = SH_NEVER;
+			sh_wake     = now_ + (nni_time) ms;
+		}
+		nni_sleep_aio(ms, &A);
+		break;
+	}
+	case 'b':   /* expiry thread runs one tick BEFORE the operation is due */
+	case 'E': { /* expiry thread runs at the first clock tick after it is due */
+		nni_time due = sh_deadline != SH_NEVER ? sh_deadline : sh_wake;
+		if (due == SH_NEVER)
+			now_ += 500;
+		else if (c == 'b')
+			now_ = (due - 1 > now_) ? due - 1 : now_;
+		else
+			now_ = due + 1 > now_ ? due + 1 : now_; /* (at now == due the real loop spins until the clock ticks) */
+		EQ->eq_exit = true;
+		nni_aio_expire_loop(EQ);
+		break;
+	}
+	case 'w': /* the task thread runs what is queued */
+		run_pending();
+		break;
+#endif
 	default:
 		break;
 	}
@@ -272,6 +411,61 @@ env_yield_hook(nni_mtx *m)
 #ifndef TMO
 #define TMO NNG_DURATION_INFINITE
 #endif
+#ifdef AIO_TIME
+/* AIO_TIME: sequential words over one aio (no nesting) about WHEN an operation may report a
+ * timeout / a sleep may report success, with the configured deadline kept in a shadow that is
+ * independent of the aio's own fields:
+ *   Z I D F  nng_aio_set_timeout(zero / infinite / default / finite FV)
+ *   P U      nng_aio_set_expire(now - PV / now + UV)
+ *   s c a t k   as above;  b / E: one pass of the expiry thread one tick before / exactly at the
+ *               moment the operation in flight is due (per the shadow)
+ *   S L      nng_sleep_aio (SV: within / LV: beyond the aio's own timeout)      w  task thread runs
+ * Durations are concrete per query and swept by the driver (R1: whether the expiry pass finds the
+ * aio due is heap shape); the words are what is enumerated. */
+void
+harness(void)
+{
+	nng_init_params prm;
+	const char     *w = OUTER;
+	memset(&prm, 0, sizeof(prm));
+	prm.num_expire_threads = 1;
+	CHECK(nni_aio_sys_init(&prm) == NNG_OK, "aio_sys_init");
+	EQ = nni_aio_expire_q_list[0];
+	nni_mtx_init(&prov_mtx);
+	nni_aio_init(&A, the_callback, NULL);
+	injected = 1; /* no nested operation in this mode */
+	for (int i = 0; i < 10; i++) {
+		if (w[i] == 0)
+			break;
+		run_op(w[i]);
+	}
+	run_pending();
+	int still = (prov_q == &A) || A.a_sleep;
+	if (still)
+		WITNESS("operation still pending at the end");
+	/* whatever is still in flight is cancelled now so that the accounting closes */
+	if (still) {
+		aborted_in_flight = 1;
+		nni_aio_abort(&A, NNG_ECANCELED);
+		run_pending();
+	}
+	CHECK(cb_runs == submissions, "every submission is completed exactly once: its callback runs once, never twice, never lost");
+	CHECK(!early_timeout, "a timeout is never reported before the configured deadline (the last nng_aio_set_timeout / nng_aio_set_expire before the operation decides)");
+	CHECK(!early_wake, "a sleep never reports success before its duration has elapsed");
+	CHECK(!stale_code, "a cancel code is reported only by an operation that was cancelled while in flight");
+	CHECK(!ev_timedout_early, "the expiry thread never cancels an operation before its own deadline");
+	CHECK(A.a_task.task_busy == 0 && cb_pending == 0, "no callback is left pending");
+	CHECK(nni_list_node_active(&A.a_expire_node) == 0, "a completed operation is not left on the expiry list");
+	CHECK(env_locks_held == 0, "no lock held");
+	if (cb_result_seen == NNG_ETIMEDOUT)
+		WITNESS("timed out");
+	if (cb_result_seen == NNG_ECANCELED)
+		WITNESS("cancelled");
+	if (cb_result_seen == 0 && cb_runs > 0)
+		WITNESS("completed");
+	WITNESS("end");
+}
+#else
 void
 harness(void)
 {
@@ -334,3 +528,4 @@ harness(void)
 		WITNESS("completed");
 	WITNESS("end");
 }
+#endif
